@@ -86,7 +86,7 @@ class _LowerIfExp(ast.NodeTransformer):
 
 
 class Module:
-    def __init__(self, name, path, relpath, text):
+    def __init__(self, name, path, relpath, text, defer=False):
         self.name = name
         self.path = path
         self.relpath = relpath
@@ -96,12 +96,17 @@ class Module:
             self.tree = ast.parse(text, filename=path)
         except SyntaxError as e:
             raise AnalysisError("cannot parse %s: %s" % (relpath, e))
+        self.imports = {}      # local alias -> dotted target ("rpyc.core.consts", "rpyc.lib.get_id_pack")
+        self.toplevel = {}     # name -> list of value-expression nodes assigned at module level (in order)
+        if not defer:
+            self.finish()
+
+    def finish(self):
+        """normalisation passes + indexing (after package-wide renames, if any, were undone)"""
         _LowerIfExp().visit(self.tree)
         A.set_parents(self.tree)
         for n in ast.walk(self.tree):
             n._module = self
-        self.imports = {}      # local alias -> dotted target ("rpyc.core.consts", "rpyc.lib.get_id_pack")
-        self.toplevel = {}     # name -> list of value-expression nodes assigned at module level (in order)
         self._index()
 
     def _index(self):
@@ -209,7 +214,13 @@ class Repo:
                 else:
                     with open(path, encoding="utf8") as f:
                         text = f.read()
-                self.modules[modname] = Module(modname, path, rel, text)
+                self.modules[modname] = Module(modname, path, rel, text, defer=inline)
+        self.renamed = []
+        if inline:
+            from . import renames as RN
+            self.renamed = RN.normalise({n: m.tree for n, m in self.modules.items()})
+            for m in self.modules.values():
+                m.finish()
         self._index_all()
         self.inlined = []
         self.opaque_callers = {}
